@@ -447,6 +447,17 @@ pub fn build(id: &str, tier: &str, seed: u64, threads: usize) -> Option<Plan> {
                     }
                 }
             }
+            // a dozen windows behind the wrap: isolated losses (one per window) there must be tolerated like anywhere else
+            let mut tails = Vec::new();
+            for &w in if q { &[1u16, 7][..] } else { &[1u16, 3, 7, 64][..] } {
+                for role in [Role::Send, Role::Recv] {
+                    let n = 65536 + 12 * w as u64 + 1;
+                    tails.push(Cfg { role, b: 8, w, len: (n - 1) * 8 + 3, hs: false, every: 0 });
+                }
+            }
+            for (b, _) in &make_bases(&tails, seed, threads) {
+                fam_isolated_from(b, 65536, &mut cases);
+            }
             let bases = make_bases(&cfgs, seed, threads);
             for (b, o) in &bases {
                 cases.push(b.spec.clone());
